@@ -36,13 +36,29 @@ var corpus = []struct {
 	// repo-patches/06: typed NULL parameters
 	{"C12.my.execute 2 k,r:58595a5a 5 170100000000010000000101fd00fd0003616263", "ok 15000005170100000000010000000101fd00fc000458595a5a", "corpus-my-execute-null", "string-typed NULL parameter must not get a value byte"},
 	{"C12.my.execute 1 k 5 1701000000000100000001010300", "ok 0e0000051701000000000100000001010300", "corpus-my-execute-null", "LONG-typed NULL parameter must not fail the rewrite"},
+	// repo-patches/09: truncated column definitions, extended type info / default value lengths taken from the wire
+	{"C12.my.coldef none 1 000000000000", "err", "corpus-my-coldef-truncated", "column definition that ends after the six strings"},
+	{"C12.my.coldef none 1 03646566000000000000", "err", "corpus-my-coldef-truncated", "column definition with a 1-byte fixed block"},
+	{"C12.my.coldef none 1 0364656600000000000c3f00090000000300000000", "err", "corpus-my-coldef-truncated", "column definition one byte short"},
+	{"C12.my.coldef none 1 036465660000000000 1", "err", "corpus-my-coldef-truncated", "MariaDB extended type info missing"},
+	{"C12.my.coldef none 1 036465660000000000fe0000000000000080 1", "err", "corpus-my-coldef-extinfo", "extended type info declaring 2^63 bytes"},
+	{"C12.my.coldef none 1 036465660000000000fcff00 1", "err", "corpus-my-coldef-extinfo", "extended type info longer than the packet"},
+	{"C12.my.coldef int32 1 036465660001740174016301630c3f0009000000fc0000000000feffffffffffffffff", "err", "corpus-my-coldef-default", "default value declaring 2^64-1 bytes"},
+	// repo-patches/10: default value of a re-typed column
+	{"C12.my.coldef int32 1 036465660001740174016301630c3f0009000000fc000000000003616263", "ok 1e000001036465660001740174016301630c3f000900000003000000000003616263", "corpus-my-coldef-default", "re-typed column definition with a default value keeps its length-encoded default"},
+	// repo-patches/11: truncated COM_STMT_EXECUTE
+	{"C12.my.execute 2 k,k 1 1700", "err", "corpus-my-execute-truncated", "COM_STMT_EXECUTE shorter than its fixed header"},
+	{"C12.my.execute 1 k 1 17010000000001000000", "err", "corpus-my-execute-truncated", "COM_STMT_EXECUTE without NULL bitmap"},
+	{"C12.my.execute 1 k 1 1701000000000100000000", "err", "corpus-my-execute-truncated", "COM_STMT_EXECUTE without the new-params-bound flag"},
+	{"C12.my.execute 1 k 1 170100000000010000000001", "err", "corpus-my-execute-truncated", "COM_STMT_EXECUTE without parameter types"},
+	{"C12.my.execute 9 k 1 17010000000001000000000001030003000300030003000300030003", "err", "corpus-my-execute-truncated", "COM_STMT_EXECUTE with 8.5 of 9 parameter types"},
 	// repo-patches/03, 04
 	{"C12.my.chain bin 5 0000c49fa58838884bc0", "ok 0000c49fa58838884bc0", "corpus-my-double", "DOUBLE value must pass the decoder/encoder unchanged"},
 	{"C12.pg.chain _ 440000000c0001000000025c78", "ok 440000000c0001000000025c78", "corpus-pg-empty-bytea", "value \"\\x\" of an unconfigured column must be relayed"},
 }
 
 // ops that exist on the implementation side only
-var implOnly = map[string]bool{"C12.my.chain": true, "C12.pg.chain": true, "C12.my.execute": true, "C12.my.coldef": true}
+var implOnly = map[string]bool{"C12.my.chain": true, "C12.pg.chain": true}
 
 func runCorpus(r *core.Run) {
 	for _, c := range corpus {
